@@ -158,6 +158,8 @@ var checks = map[string]*checkDef{}
 type wdSlot struct {
 	start atomic.Int64
 	desc  atomic.Value // string
+	item  atomic.Pointer[Item]
+	tier  string
 }
 
 var wdSlots []*wdSlot
@@ -171,12 +173,51 @@ func watchdog(prop string, limit time.Duration) {
 			if st != 0 && time.Duration(now-st) > limit {
 				d, _ := s.desc.Load().(string)
 				fmt.Fprintf(os.Stderr, "WATCHDOG: a single simulated run exceeded %v: %s\n", limit, d)
-				// A parse that never returns under a legal read schedule is
-				// a failure of the harness budget, not a decided violation.
+				// If the stuck worker is inside the syntax package, the
+				// parser or printer does not return under a legal
+				// schedule of reads and writes: that is a violation
+				// (nothing the property promises can hold), reported with
+				// a replay of the whole item. Anything else is trouble
+				// of the harness or the machine: exit 2.
+				buf := make([]byte, 4<<20)
+				buf = buf[:runtime.Stack(buf, true)]
+				it := s.item.Load()
+				if it != nil && stuckInSyntax(string(buf)) {
+					rep := Replay{Property: prop, World: "A", Seed: it.Seed, Run: it.Idx, Mode: "item-hang", Class: "hang-in-syntax-package",
+						Detail: "a Parse/StmtsSeq/InteractiveSeq/Print call of this item did not return", Extra: map[string]any{"origin": it.Origin, "langs": it.Langs, "tier": s.tier}}
+					rep.setInput(it.Src)
+					rep.Key = "hang:" + kit.Digest(it.Src)
+					if path, err := kit.WriteReplay(prop, rep); err == nil {
+						fmt.Printf("violation class=%s key=%s\n  item=%d (%s)\n  input=%s\n  stack of the stuck goroutine:\n%s\n", rep.Class, rep.Key, it.Idx, it.Origin, kit.Clip(rep.InputQ, 600), kit.Clip(stuckStack(string(buf)), 1500))
+						fmt.Printf("VIOLATION property=%s replay=%s\n", prop, path)
+						os.Exit(1)
+					}
+				}
 				os.Exit(2)
 			}
 		}
 	}
+}
+
+// stuckInSyntax reports whether a worker goroutine is inside mvdan.cc/sh/v3/syntax.
+func stuckInSyntax(stacks string) bool { return stuckStack(stacks) != "" }
+
+func stuckStack(stacks string) string {
+	for _, g := range strings.Split(stacks, "\n\n") {
+		if strings.Contains(g, "mvdan.cc/sh/v3/syntax.") && (strings.Contains(g, "main.runC0") || strings.Contains(g, "main.runC1") || strings.Contains(g, "main.replayItem")) {
+			var keep []string
+			for _, l := range strings.Split(g, "\n") {
+				if !strings.HasPrefix(l, "\t") {
+					keep = append(keep, l)
+				}
+			}
+			if len(keep) > 14 {
+				keep = keep[:14]
+			}
+			return strings.Join(keep, "\n")
+		}
+	}
+	return ""
 }
 
 // ------------------------------------------------------------------ items
@@ -206,6 +247,12 @@ func buildItems(prop, tier string, root uint64) ([]*Item, error) {
 			valid[v] = true
 		}
 		add([]byte(e.Src), fmt.Sprintf("corpus[%d] %s", i, e.From), allLangs, valid)
+	}
+	// hand-written inputs for places the corpus and the generator are thin
+	// on: line continuations inside parameter expansions, arithmetic and
+	// test clauses, CRLF input, NUL bytes, multi-byte runes at line ends
+	for i, src := range extraInputs {
+		add([]byte(src), fmt.Sprintf("extra[%d]", i), allLangs, nil)
 	}
 	ngen := 400
 	if tier == "thorough" {
@@ -336,6 +383,7 @@ func main() {
 	fs := flag.NewFlagSet("worlda", flag.ExitOnError)
 	workers := fs.Int("workers", runtime.NumCPU(), "parallel workers")
 	maxItems := fs.Int("max-items", 0, "limit number of items (0 = all)")
+	only := fs.Int("only", -1, "run only the item with this index (development aid)")
 	digests := fs.Bool("digests", false, "print per-item event-log digests and exit (determinism gate)")
 	fs.Parse(os.Args[3:])
 
@@ -364,6 +412,10 @@ func main() {
 	if *maxItems > 0 && len(items) > *maxItems {
 		items = items[:*maxItems]
 	}
+	if *only >= 0 && *only < len(items) {
+		items = items[*only : *only+1]
+		fmt.Printf("only item %d (%s): %s\n", *only, items[0].Origin, strconv.Quote(string(items[0].Src)))
+	}
 
 	results := make([]*ItemResult, len(items))
 	var next atomic.Int64
@@ -384,6 +436,8 @@ func main() {
 				}
 				it := items[i]
 				wdSlots[w].desc.Store(fmt.Sprintf("item %d (%s) seed=%d input=%s", it.Idx, it.Origin, it.Seed, strconv.Quote(kit.Clip(string(it.Src), 300))))
+				wdSlots[w].item.Store(it)
+				wdSlots[w].tier = gateTier
 				wdSlots[w].start.Store(time.Now().UnixNano())
 				st := newStats()
 				viols, dg := def.run(it, gateTier, st)
@@ -520,6 +574,9 @@ func doReplay(def *checkDef, path string) int {
 		fmt.Fprintln(os.Stderr, err)
 		return 2
 	}
+	if rep.Mode == "item-hang" {
+		return replayItem(def, &rep, path)
+	}
 	wdSlots = []*wdSlot{{}}
 	go watchdog(def.id, 120*time.Second)
 	wdSlots[0].desc.Store("replay " + path)
@@ -536,4 +593,30 @@ func doReplay(def *checkDef, path string) int {
 	fmt.Printf("replayed: class=%s key=%s\n  cfg=%s plan=%s\n  input=%s\n  detail=%s\n", v.Class, v.Key, rep.Cfg, rep.Plan, kit.Clip(rep.InputQ, 400), v.Detail)
 	fmt.Printf("VIOLATION property=%s replay=%s\n", def.id, path)
 	return 1
+}
+
+// replayItem re-executes a whole item that did not return; the item's own
+// seed regenerates its plans and histories.
+func replayItem(def *checkDef, rep *Replay, path string) int {
+	var langs []string
+	remarshal(rep.Extra["langs"], &langs)
+	tier, _ := rep.Extra["tier"].(string)
+	if tier == "" {
+		tier = "quick"
+	}
+	it := &Item{Idx: rep.Run, Src: rep.input(), Origin: fmt.Sprint(rep.Extra["origin"]), Langs: langs, Seed: rep.Seed}
+	done := make(chan struct{})
+	go func() {
+		def.run(it, tier, newStats())
+		close(done)
+	}()
+	select {
+	case <-done:
+		fmt.Printf("replay diverged: the item returned this time (recorded class=%s)\n", rep.Class)
+		return 2
+	case <-time.After(60 * time.Second):
+		fmt.Printf("replayed: class=%s key=%s: the item still does not return after 60s\n", rep.Class, rep.Key)
+		fmt.Printf("VIOLATION property=%s replay=%s\n", def.id, path)
+		return 1
+	}
 }
